@@ -184,7 +184,35 @@ def run(ck, prog, tier, load):
     ctw2 = [bb for bb, i, s in cenc.assigns() if any(isinstance(x, str) and rx(CT).search(x) for x in s["p"][1:])]
     ok = bool(ctw2) and bool(enc_calls) and cenc.must_pass(item_edge, enc_calls, ctw2)[0]
     ck.ob("C17-d.conn-type-recomputed", "ClientCodec::encode", ok, cenc, ctw2[0] if ctw2 else None, "the connection type is recomputed from every request written (a `close` of an earlier exchange does not linger, a keep-alive is not inherited)")
+    # the response decoder shares MessageType::set_headers with the server: for a response carrying both framing headers
+    # (allowed for responses) chunked coding wins over Content-Length (RFC 7230 3.3.3 item 3)
+    sh = prog.one(r"^actix_http::h1::decoder::MessageType::set_headers$")
+    chk = [bb for bb, t in sh.calls(r"PayloadDecoder::chunked$")]
+    lens = [bb for bb, t in sh.calls(r"PayloadDecoder::length$")]
+    ck.anchor("C17-a", len(chk), 1, "PayloadDecoder::chunked in set_headers")
+    ck.anchor("C17-a", len(lens), 1, "PayloadDecoder::length in set_headers")
+    CH = set(l for bb in chk for l in locals_guarding(sh, bb, True))
+    for bb in lens:
+        ok = bool(CH) and guarded_by(sh, bb, lambda c, lab: bool(bool_test(c, lab)) and is_local(bool_test(c, lab)[0], CH) and bool_test(c, lab)[1] is False)[0]
+        ck.ob("C17-a.chunked-wins-over-length", "set_headers", ok, sh, bb, "the Content-Length decoder is chosen only on the edge where the message is not chunked: a response with both headers is framed by its chunked coding")
+    stream_flag_has_payload(ck, prog, "C17-d")
 
 
 def lab_any(edges, name):
     return any(lab == name for lab, tb in edges)
+
+
+def stream_flag_has_payload(ck, prog, P):
+    """ClientCodec::message_type() reports Stream whenever the STREAM flag is set, and the payload codec then unwraps
+    `payload`: so on no path may STREAM be inserted and the payload slot end up empty (shared by C17 and C19)"""
+    cdec = prog.one(r"^<actix_http::h1::client::ClientCodec as tokio_util::codec::decoder::Decoder>::decode$")
+    ins = [bb for bb, t in cdec.calls(r"client::_::insert$") if e_has_const(cdec.op_expr(t["args"][1]), r"::STREAM$")]
+    ck.anchor(P, len(ins), 1, "insert(Flags::STREAM) in ClientCodec::decode")
+    nones = [bb for bb, i, s in cdec.assigns() if any(isinstance(x, str) and x.endswith("ClientCodecInner.payload") for x in s["p"][1:]) and is_agg(cdec.rv_expr(s["rv"], 3), r"Option::None$")]
+    somes = [bb for bb, i, s in cdec.assigns() if any(isinstance(x, str) and x.endswith("ClientCodecInner.payload") for x in s["p"][1:]) and is_agg(cdec.rv_expr(s["rv"], 3), r"Option::Some$")]
+    for bb in ins:
+        after = cdec.reach(cdec.succ[bb])
+        cleared = sorted(set(nones) & after)
+        has_some = any(cdec.dominates(s_, bb) or s_ in after or s_ == bb for s_ in somes)
+        ck.ob(P + ".stream-flag-has-payload", "ClientCodec::decode", has_some and not cleared, cdec, cleared[0] if cleared else bb,
+              "where the STREAM flag is switched on a payload decoder is installed and no later statement empties the slot (message_type() == Stream with payload == None makes the payload codec unwrap None)")
